@@ -315,7 +315,7 @@ package vmm
 //@   trusted
 //@   ensures r == p
 //@ pred recursiveSlotOK() = mem64(lastEntryAddr()) & 0x000ffffffffff000 == uint64(cpu.cr3 >> 12) << 12
-//@ func multiboot.VisitElfSections(visitor multiboot.ElfSectionVisitor)
+//@ func multiboot.VisitElfSections~callers(visitor multiboot.ElfSectionVisitor)
 //@   trusted
 //@   modifies elems(*kernel.Error), mem, mapCalls, mapLogPage, mapLogFrame, mapLogFlags, pageTables, cpu.flushes, cpu.flushLog
 //@   ensures old(recursiveSlotOK()) ==> mem == old(mem)
